@@ -240,6 +240,19 @@ def normalValue (bt : Nat) (isBool isArray : Bool) (v : Value) : Value :=
     | [x] => scalarOf bt isBool x
     | xs => sliceOf bt isBool xs
 
+/-- the NUL-terminated segments the bytes of a string value hold, EMPTY ONES INCLUDED (what is on the wire) -/
+def segments (v : Value) : List (List Nat) := splitNul [] (strData v)
+
+/-- **the normal form WITHOUT the decoder's dropping of empty strings**: as `normalValue`, except that a string array read
+in array mode is the list of ALL its NUL-terminated segments — an empty string inside an array (a lone NUL on the wire, which
+the encoder does write) keeps its place. Only what the wire cannot carry is identified: `[]` ≅ `[""]` ≅ `""` (all three are written
+as one NUL: the representative is `[]`), a string with an inner NUL ≅ its pieces. `normalValue` additionally drops the empty segments (rule (c) of DESIGN
+§3: decoder behaviour — value_unmarshal.go "only if not an invalid string" — not a wire limit: finding KF-C01-emptystr). -/
+def strictValue (bt : Nat) (isBool isArray : Bool) (v : Value) : Value :=
+  if bt = btString ∧ isArray = true ∧ isStr v = true then
+    .sliceString (if segments v == [[]] then [] else segments v)
+  else normalValue bt isBool isArray v
+
 /-- how the decoder decides "array" for a field it has no profile entry for (unknown fields, developer fields):
 from the size for numbers, from the number of terminated non-empty pieces for strings -/
 def inferArray (bt : Nat) (v : Value) : Bool :=
@@ -421,6 +434,13 @@ def kfArrV (bt : Nat) (_isBool isArray : Bool) (v : Value) : Bool :=
 (invalid UTF-8 does not pass validation) -/
 def kfFFFDV (v : Value) : Bool := !clean v || !((pieces (strList v)).all cleanStr)
 
+/-- KF-C01-emptystr: a string value read in array mode whose bytes hold an EMPTY NUL-terminated segment (an empty string in a
+string array beside other strings, two NULs in a row; NOT the single NUL that `[]`, `[""]` and `""` are all written as): the encoder writes the lone NUL, the
+decoder skips it ("only if not an invalid string") — the strings behind it move up one place (`["a","","b"]` comes back as
+`["a","b"]`), unlike the invalid elements of a numeric array, which keep their place -/
+def kfEmptyV (bt : Nat) (_isBool isArray : Bool) (v : Value) : Bool :=
+  bt == btString && isArray && isStr v && segments v != [[]] && (segments v).any (·.isEmpty)
+
 def fieldClass (p : Nat → Bool → Bool → Value → Bool) (fac : DecApi.Factory) (mesgNum : Nat) (f : Field) : Bool :=
   match f.base with
   | none => false
@@ -441,6 +461,7 @@ def seqClass (p : Nat → Bool → Bool → Value → Bool) (fac : DecApi.Factor
 def kfZero (fac : DecApi.Factory) (kept : List Message) : Bool := seqClass (fun _ _ _ v => kfZeroV v) fac {} kept
 def kfArr (fac : DecApi.Factory) (kept : List Message) : Bool := seqClass kfArrV fac {} kept
 def kfFFFD (fac : DecApi.Factory) (kept : List Message) : Bool := seqClass (fun _ _ _ v => kfFFFDV v) fac {} kept
+def kfEmpty (fac : DecApi.Factory) (kept : List Message) : Bool := seqClass kfEmptyV fac {} kept
 
 /-! ### classes of DECODER OUTPUT on which encoding and decoding again does not return the very same messages -/
 
